@@ -384,6 +384,25 @@ Proof.
     exact (wf_raw_recs recs2 Hr2).
 Qed.
 
+(* the four kinds of malformed file named by the property, together *)
+Theorem di_malformed :
+  (forall data, ends_with_nul data = false -> di_parse data = [DErr 1 (N.of_nat (length data))]) /\
+  (forall data, ends_with_nul data = true -> (hd 1 data =? 0) = false -> di_parse data = [DErr 2 0]) /\
+  (forall v rr op rest,
+     wf_operand v = true -> wf_raw rr = true -> nul_ended rest ->
+     di_parse (raw_bytes ((0, v) :: rr) ++ op :: 0 :: rest) =
+     raw_events 0 ((0, v) :: rr) ++ [DErr 3 (N.of_nat (length (raw_bytes ((0, v) :: rr))))]) /\
+  (forall v recs op s recs2,
+     wf_operand v = true -> wf_recs recs = true -> wf_operand s = true -> wf_recs recs2 = true ->
+     (known_opcode op = false \/ op = 0) ->
+     di_parse (di_write v recs ++ di_record op s ++ raw_bytes (map raw_of_rec recs2)) =
+     Version v :: map di_event_of recs ++
+     DErr (if op =? 0 then 4 else 5) (N.of_nat (length (di_write v recs))) :: map di_event_of recs2).
+Proof.
+  split; [exact di_missing_terminator|]. split; [exact di_missing_version|].
+  split; [exact di_empty_operand | exact di_bad_opcode].
+Qed.
+
 (* ---------- non-vacuity ---------- *)
 
 (* version [ld]; input [/a b], missing [m], output [o], input [0x80 0xff] *)
